@@ -12,7 +12,7 @@ let run (input : string) : string =
       let inserts = List.filter_map (fun it -> if it = "" then None else
         match split_on '=' it with
         | [t; h] -> Some (z_of_string t, bytes_of_hex h) | _ -> failwith "insert") (split_on ';' ins) in
-      (* the build mode only matters with >= 4096 tables; generated cases are far below *)
+      (* the build mode no longer matters: the search fields use checked arithmetic (fix c89f93a) *)
       match build_from_inserts Debug (z_of_string ver) inserts with
       | Ok b -> "ok:" ^ hex_of_bytes b
       | Err _ -> "err" | Panic -> "panic" | OOB -> "oob"
